@@ -142,13 +142,14 @@ fn report(prop: &'static str, tier: Tier, seed: u64, rule: &str, batches: Vec<Ba
     }
 }
 
-fn all_kinds() -> Vec<Kind> {
+pub fn all_kinds() -> Vec<Kind> {
     let mut v = SHIPPED.to_vec();
     v.push(Kind::GaArchive);
     v.push(Kind::EsArchive);
     v.push(Kind::DeVariants);
     v.push(Kind::GaVariants);
     v.push(Kind::GaVariants);
+    v.push(Kind::EvalMix);
     v
 }
 
@@ -311,7 +312,14 @@ pub fn run_c16(tier: Tier, seed: u64, known: &KnownFindings) -> CheckReport {
     let b = run_batch(&w, &mk("C16", "templates-valid-parameters", seed, tier, tier.pick(250_000, 6_000_000), known));
     let w2 = TemplateWorld { prop: "C16", world_name: "templates-c16", kinds: SHIPPED.to_vec(), penalty: 0.0, faults: FaultMix::ExtremeDraw, max_iters: (40, 120), evaluations_term: false, log: false, compound_term: false, key_steps: &[] };
     let b2 = run_batch(&w2, &mk("C16", "templates-extreme-draws", seed, tier, tier.pick(120_000, 3_000_000), known));
-    report("C16", tier, seed, "one case = (one of the 21 shipped template constructors, parameters drawn from its documented valid ranges incl. boundaries: population 1-2, tournament = population, probabilities 0 and 1, y in {1,2}, small v_max, very unequal distances; instance; n in 0..120 iterations; seed); no failing fault, no penalty regions; oracle: run returns Ok without panic, iteration counter == n, n+1 condition tests, stack height at pass end == at pass begin for every pass of every loop, one population at the end, population size after every pass within the template's prescription; the extreme-draw batch forces one word of the random stream to 0 or u64::MAX (legal outputs); non-trivial = at least one step executed", vec![b, b2], &[])
+    let bp = run_batch(&crate::checks::c08::SeqVsPar { prop: "C16", name: "seq-vs-par-c16" }, &mk("C16", "templates-parallel-evaluator", seed, tier, tier.pick(1_200, 50_000), known));
+    let mut r = report_c16(tier, seed, vec![b, b2, bp]);
+    r.stubbed_components.push("rayon (simulated worker pool on shuttle threads) in the parallel batch".into());
+    r
+}
+
+fn report_c16(tier: Tier, seed: u64, batches: Vec<BatchStats>) -> CheckReport {
+    report("C16", tier, seed, "templates-parallel-evaluator: the same templates run with problems::evaluate::Parallel on 1..8 simulated workers under 3 (quick) / 8 (thorough) seeded schedules each; the run-end and per-pass monitors of the parallel runs, and a panic that the sequential run with the same seed does not have. one case = (one of the 21 shipped template constructors, parameters drawn from its documented valid ranges incl. boundaries: population 1-2, tournament = population, probabilities 0 and 1, y in {1,2}, small v_max, very unequal distances; instance; n in 0..120 iterations; seed); no failing fault, no penalty regions; oracle: run returns Ok without panic, iteration counter == n, n+1 condition tests, stack height at pass end == at pass begin for every pass of every loop, one population at the end, population size after every pass within the template's prescription; the extreme-draw batch forces one word of the random stream to 0 or u64::MAX (legal outputs); non-trivial = at least one step executed", batches, &[])
 }
 
 pub fn run_c18(tier: Tier, seed: u64, known: &KnownFindings) -> CheckReport {
